@@ -78,3 +78,13 @@ check("C13", "fault_enumeration",
       "Short real handshake timeouts are used only to reach the timeout path; verdicts never depend on elapsed time.",
       "runtime monitoring: fault-injected handshakes with boundary recording and goroutine-leak detection",
       "DESIGN.md 3/C13")
+check("C04", "fault_enumeration",
+      "For ten query scenarios a fault-free pilot run yields the gate trace (client writes, server packets, callbacks, internal hook points); then every fault point is replayed: server stream cut (EOF/reset) and altered at every byte (sampled for long streams), client write error at every byte, every callback failing, an exception injected at every gate, unknown and unexpected packets before every server packet, exception plus write error; receiver-side failures are repeated to vary the goroutine interleaving. After Do returns the post-state is probed at the connection boundary: closed (then further calls return ErrClosed without touching the connection) or open with the client stream at a packet boundary, a follow-up Ping writing exactly 04 and completing. Held = every fault plan ended in one of the two allowed post-states and Do returned; one known finding (no deadline inside a packet body).",
+      "Finite read timeout (100 ms); exceptions injected at packet boundaries of the server stream with nothing after them; wall-clock watchdogs only end runs, a hang is reported only with stuck-state evidence (reader blocked without deadline).",
+      "runtime monitoring: exhaustive fault-point enumeration with post-state probes at the connection boundary",
+      "DESIGN.md 3/C04")
+check("C10", "fault_enumeration",
+      "For each scenario the caller's context is cancelled at every gate of the pilot trace (client writes, server packets, callbacks, hook points), before the call, during server silence in the middle of a packet (sampled byte offsets), while the peer has stopped reading, and during the handshake (silent or partial hello, cancel and deadline). Monitors at the boundary: return value matches the context error, Cancel packet is the single byte 03 in its own write, Close exactly once, connection closed, goroutine dump shows no library goroutine left; a non-returning call is reported with stuck-state evidence (reader blocked, no deadline, nothing queued). Held = all cancellation points tried ended correctly.",
+      "Wall-clock only bounds runs (watchdog 10 s); 'promptly' is judged by stuck-state evidence, elapsed times are reported as inconclusive notes.",
+      "runtime monitoring: cancellation injected at every enumerated gate with boundary recording and leak detection",
+      "DESIGN.md 3/C10")
